@@ -126,6 +126,7 @@ SeenOf(ww, e) ==
   \cup (IF \E k \in 1..Len(cur.depths) : cur.depths[k].positive = "" THEN {"attr-withheld"} ELSE {})
   \cup (IF \E k \in 1..Len(cur.depths) : Len(cur.depths[k].bounds) > 0 THEN {"with-bounds"} ELSE {})
   \cup (IF Len(cur.depths) > 1 THEN {"two-depth-coordinates"} ELSE {})
+  \cup (IF Len(cur.depths) > 2 THEN {"sediment-depth-coordinates"} ELSE {})
   \cup (IF \E a, b \in 1..Len(cur.depths) : a # b /\ cur.depths[a].dim = cur.depths[b].dim THEN {"two-coordinates-one-dimension"} ELSE {})
   \cup (IF e.a = "OceanFloor" /\ Ok(e) /\ \E k \in 1..Len(e.obs.ok.vars) : \E q \in 1..Len(e.obs.ok.vars[k].data) : e.obs.ok.vars[k].data[q] = MISSING
         THEN {"dry-column"} ELSE {})
